@@ -31,7 +31,9 @@ def run(ctx):
         nonlocal n_q
         if seed_of:
             ds = find_apps(term, 'KeGroup::derive_auth_keypair')
-            good = bool(ds) and all(is_rng_draw(d[2][0]) for d in ds)
+            nsk = suite_params(sn)['Nsk']
+            # the seed is one whole draw of Nsk bytes (not a shorter draw padded, nor a slice of a longer one)
+            good = bool(ds) and all(is_rng_draw(d[2][0]) and d[2][0][2][2] == Int(nsk) for d in ds)
             got = ds[0][2][0] if ds else None
         else:
             good = is_rng_draw(term)
@@ -101,16 +103,17 @@ def run(ctx):
                 prks = [e[1] for e in p.events if e[0] == 'expand' and cat_parts(e[2])[-1:] == [Bytes(b'CredentialResponsePad')]]
                 qs.append(quantity(sn, 'slog_start', p, 'fake-record masking key', prks[0] if prks else None, w))
             check_distinct(rep, sn, 'slog_start', p, qs, w)
-        # setup
-        s = api_summary(ctx, sn, 'setup_new_with_key')
-        w = where_of(s)
-        for p in s.ok_paths:
-            vals = fields(p.value)
-            seeds = [v for v in vals.values() if is_rng_draw(v)]
-            kps = [v for v in vals.values() if find_apps(v, 'KeGroup::derive_auth_keypair')]
-            qs = [quantity(sn, 'setup_new_with_key', p, 'server OPRF seed', seeds[0] if seeds else None, w),
-                  quantity(sn, 'setup_new_with_key', p, 'fake key seed', kps[0] if kps else None, w, seed_of=True)]
-            check_distinct(rep, sn, 'setup_new_with_key', p, qs, w)
+        # setup (also with an externally held static key, whose serialised length differs from the group's scalar length)
+        for sx in (sn, sn + '-remote'):
+            s = api_summary(ctx, sx, 'setup_new_with_key')
+            w = where_of(s)
+            for p in s.ok_paths:
+                vals = fields(p.value)
+                seeds = [v for v in vals.values() if is_rng_draw(v)]
+                kps = [v for v in vals.values() if find_apps(v, 'KeGroup::derive_auth_keypair')]
+                qs = [quantity(sx, 'setup_new_with_key', p, 'server OPRF seed', seeds[0] if seeds else None, w),
+                      quantity(sx, 'setup_new_with_key', p, 'fake key seed', kps[0] if kps else None, w, seed_of=True)]
+                check_distinct(rep, sx, 'setup_new_with_key', p, qs, w)
         s = api_summary(ctx, sn, 'setup_new')
         w = where_of(s)
         for p in s.ok_paths:
@@ -125,8 +128,8 @@ def run(ctx):
             rep.ob('R17.2', 'setup_new: static key seed and fake key seed are two different draws', good, show(p.value)[:300], w, sn)
             check_distinct(rep, sn, 'setup_new', p, list(seeds) + [v for v in vals.values() if is_rng_draw(v)], w)
     ns = len(ctx.suite_names)
-    # per suite: 1 + 3 + 8 + (8*3 + 4) + 2 + 1
-    rep.floor('R17.2', 'random quantities established', n_q, ns * 40)
+    # per suite: 1 + 3 + 8 + (8*3 + 4) + 2 + 2 (external key) + 1
+    rep.floor('R17.2', 'random quantities established', n_q, ns * 42)
     from rules import profile
     profile.check(ctx, rep, 'R17.P', ['creg_start', 'clog_start', 'creg_finish', 'slog_start', 'setup_new', 'setup_new_with_key'])
     return rep
